@@ -9,7 +9,10 @@ from umnlib import tp
 GOOD = ["b.txt", "d.txt", "f", "h.txt"]          # "f" is a sub-directory
 LETTERS = ["a", "c", "e", "g", "i"]              # sort before / between / after the good names
 KINDS = ["dangling", "fifo", "socket", "dotdot", "dotbs", "bsbs", "enoent", "eacces"]
-DOT_KINDS = ["dot-dangling", "dot-fifo", "dot-socket"]
+DOT_KINDS = ["dot-dangling", "dot-fifo", "dot-socket",
+             # dot-prefixed names that also fail the selector filter (editor swap files, the `..data` entries of
+             # mounted config volumes, a file literally called `...`), as regular file, dangling link and directory
+             "dot-dotdot-file", "dot-dotdot-link", "dot-dotdot-dir", "dot-three-dots", "dot-bs-file"]
 CONFIG = {"handlers.dir.DirHandler": {"cachetime": "0"}}
 
 
@@ -45,6 +48,21 @@ def fault_entry(pre, letter, kind):
     if kind == "dot-socket":
         n = "." + letter + "sock"
         return n, [{"path": tp(pre + n), "kind": "socket"}], None
+    if kind == "dot-dotdot-file":
+        n = ".." + letter + "data.swp"
+        return n, [{"path": tp(pre + n), "data": "swap\n"}], None
+    if kind == "dot-dotdot-link":
+        n = ".." + letter + "data"
+        return n, [{"path": tp(pre + n), "kind": "symlink", "target": "nowhere-at-all"}], None
+    if kind == "dot-dotdot-dir":
+        n = ".." + letter + "2024_01_01"
+        return n, [{"path": tp(pre + n), "kind": "dir"}, {"path": tp(pre + n + "/inside"), "data": "x\n"}], None
+    if kind == "dot-three-dots":
+        n = "..."
+        return n, [{"path": tp(pre + n), "data": "dots\n"}], None
+    if kind == "dot-bs-file":
+        n = "." + letter + ".\\x"
+        return n, [{"path": tp(pre + n), "data": "dot backslash\n"}], None
     raise ValueError(kind)
 
 
@@ -103,8 +121,9 @@ def run(tier):
             scenarios.append(scenario(["/d", "/"][k % 2], [(pos, kind)]))
             k += 1
     for kind in DOT_KINDS:
-        scenarios.append(scenario(["/d", "/"][k % 2], [(0, kind)]))
-        k += 1
+        for pos in ((0, 3) if kind.startswith("dot-dotdot") else (0,)):
+            scenarios.append(scenario(["/d", "/"][k % 2], [(pos, kind)]))
+            k += 1
     pairs = []
     for p1 in range(len(LETTERS)):
         for p2 in range(p1 + 1, len(LETTERS)):
@@ -115,6 +134,8 @@ def run(tier):
                 pairs.append([(p1, a), (p2, b)])
     pairs.append([(0, "dot-dangling"), (3, "fifo")])
     pairs.append([(1, "dot-socket"), (1, "dot-dangling")])
+    pairs.append([(2, "dot-dotdot-file"), (4, "dangling")])
+    pairs.append([(0, "dot-three-dots"), (1, "dot-dotdot-link")])
     for f in pairs:
         scenarios.append(scenario(["/d", "/"][k % 2], f))
         k += 1
@@ -189,7 +210,7 @@ def run(tier):
     cov["correspondence"]["mismatch_cases"] = [{"faults": meta[i][0]["faults"], "handler": meta[i][1],
                                                 "dir": meta[i][0]["dir"]} for i in mism[:10]]
     cov["oracle"] = {"protocol_requests": nreq, "failures": fails,
-                     "singles": len(LETTERS) * len(KINDS) + len(DOT_KINDS), "pairs": len(pairs)}
+                     "singles": len(scenarios) - len(pairs) - 1, "pairs": len(pairs)}
     chk.sample({"kind": "scenario", "faults": scenarios[0]["faults"], "dir": scenarios[0]["dir"],
                 "umn_prepare": res[0]["res"]["runs"]["umn"]["groups"][0]["result"].get("exc", "entries"),
                 "gopher_reply": res[0]["res"]["protocols"]["umn"][0]["out"][:120]})
